@@ -1,4 +1,4 @@
 SPECIFICATION Spec
-CONSTANTS MaxExt = 7  Finalizers = TRUE
+CONSTANTS MaxExt = 7  Finalizers = TRUE  Extra = FALSE
 INVARIANTS FinBeforeOut C06
 CHECK_DEADLOCK FALSE
